@@ -627,16 +627,16 @@ Definition meth_of (q : request) : list (bytes * bytes) :=
    request context), and the EMPTY STRING as the empty value. *)
 Definition CFG_EMPTY : bytes := [].        (* third argument of NewReplacer in buildEnv *)
 
-(* path.Split *)
-Definition path_dir (p : bytes) : bytes :=
-  match last_index p SLASH with Some i => firstn (S i) p | None => [] end.
-Definition path_file (p : bytes) : bytes :=
-  match last_index p SLASH with Some i => skipn (S i) p | None => p end.
-
-(* the part of getSubstitution's default vocabulary that depends on the request only (rr == nil;
-   no client certificate).  [empty] is the replacer's empty value.  Vocabulary entries that are
-   not listed ({when…}, {hostname}, {request}, {request_body}, the *_escaped ones) are outside the
-   model: [cfg_judged] below keeps them out of the comparison. *)
+(* C13's own table of the request-determined part of getSubstitution's default vocabulary (rr ==
+   nil; no client certificate).  [empty] is the replacer's empty value.  It serves two purposes:
+   (1) it is the DOCUMENTED table the executable spec reads ([cfg_expected], through C20's
+   spec_subst), for every label; (2) the model reads from it the labels that [cfg_dispatch] marks
+   Oracle: those C20 leaves to the harness ({hostonly} {remote} {port} {uri} {rewrite_uri}
+   {server_port} {latency} {latency_ms}) and the three that depend on r.TLS, which C20's table
+   fixes to plain HTTP.  For every label C20's table COMPUTES (Fn) the two coincide
+   (cfg_fn_agrees in C13_Proofs).  Vocabulary entries that are not listed ({when…}, {hostname},
+   {request}, {request_body}, the *_escaped ones) are outside the model: [cfg_judged] below
+   keeps them out of the comparison. *)
 Definition TLS_CONN_KEYS : list bytes := map bs ["{tls_protocol}"; "{tls_cipher}"].
 Definition TLS_KEYS : list bytes :=
   map bs ["{tls_client_escaped_cert}"; "{tls_client_fingerprint}";
@@ -659,7 +659,7 @@ Definition cfg_defaults (empty : bytes) (q : request) : list (bytes * bytes) :=
     (bs "{remote}", match q_remote_hp q with Some hp => fst hp | None => q_remote q end);
     (bs "{port}", match q_remote_hp q with Some hp => snd hp | None => empty end);
     (bs "{uri}", q_requri q); (bs "{rewrite_uri}", q_requri q);
-    (bs "{file}", path_file (q_path q)); (bs "{dir}", path_dir (q_path q));
+    (bs "{file}", C20_Model.path_file (q_path q)); (bs "{dir}", C20_Model.path_dir (q_path q));
     (bs "{request_id}", []); (bs "{mitm}", bs "unknown");
     (bs "{server_port}", match q_host_hp q with
                          | Some hp => snd hp
@@ -671,10 +671,22 @@ Definition cfg_renv (empty : bytes) (q : request) : C20_Model.renv :=
   {| C20_Model.e_custom := []; C20_Model.e_reqh := q_headers q; C20_Model.e_resph := None;
      C20_Model.e_cookies := q_cookies q; C20_Model.e_query := q_qargs q; C20_Model.e_osenv := q_osenv q;
      C20_Model.e_defaults := cfg_defaults empty q; C20_Model.e_host := q_host q;
-     C20_Model.e_empty := empty |}.
+     C20_Model.e_empty := empty;
+     (* buildEnv's replacer sees the request as the handler got it: the original URL of the
+        context and r.URL are the harness's request URL; no recorder *)
+     C20_Model.e_method := q_method q; C20_Model.e_path := q_path q; C20_Model.e_curpath := q_path q;
+     C20_Model.e_rawquery := q_query q; C20_Model.e_proto := q_proto q; C20_Model.e_rec := None |}.
 
+(* the dispatch table of getSubstitution's default vocabulary: C20's, with the three labels whose
+   value depends on r.TLS handed in (C20's model has no TLS: its table fixes them to http / empty) *)
+Definition TLS_DEP_KEYS : list bytes := map bs ["{scheme}"; "{tls_protocol}"; "{tls_cipher}"].
+Definition cfg_dispatch : list (bytes * C20_Model.how) :=
+  map (fun p => if C20_Model.mem (fst p) TLS_DEP_KEYS then (fst p, C20_Model.Oracle) else p) C20_Model.dispatch.
+
+(* Replace over getSubstitution (C20's [expand] and [get_subst]) with that table; on plain HTTP
+   this is C20_Model.expand_env itself (cfg_expand_plain_http in C13_Proofs) *)
 Definition cfg_expand (q : request) (v : bytes) : res bytes :=
-  C20_Model.expand_env (cfg_renv CFG_EMPTY q) v.
+  C20_Model.expand (C20_Model.get_subst cfg_dispatch (cfg_renv CFG_EMPTY q)) v.
 Fixpoint cfg_entries (q : request) (l : list (bytes * bytes)) : res (list (bytes * bytes)) :=
   match l with
   | [] => Ok []
@@ -690,7 +702,10 @@ Definition env_list (cs : bool) (sv : server) (r : rule) (q : request) (f : byte
 (* ---- executable statement for the configured entries, independent of [expand]: the documented
    reading of the value (C20's structural tokenizer and value table) with "" as the empty value ---- *)
 Definition cfg_key_modelled (q : request) (k : bytes) : bool :=
-  negb (C20_Model.mem k V.Gen_C20.gen_c20_vocab) || C20_Model.mem k (map fst (cfg_defaults [] q)).
+  match C20_Model.assoc k cfg_dispatch with
+  | None => true                                                 (* not in the vocabulary *)
+  | Some _ => C20_Model.mem k (map fst (cfg_defaults [] q))      (* in C13's documented table *)
+  end.
 Definition cfg_judged (q : request) (v : bytes) : bool :=
   C20_Model.simple_fmt v && forallb (cfg_key_modelled q) (C20_Model.keys_of (C20_Model.spec_tokens v)).
 Definition cfg_expected (q : request) (v : bytes) : bytes :=
